@@ -264,7 +264,7 @@ func wgRun(t *testing.T, sp *wgSpec) {
 		if rapid.IntRange(0, 2).Draw(rt, "builderHistory") == 0 {
 			// same name pool, so the prior model nearly always defines the same type#relation keys differently
 			in.Prior = gen.GraphModel(rt, gen.GraphOpts{MultiThis: true, SmallModels: true, Hazards: true})
-			in.Shared = rapid.IntRange(0, 2).Draw(rt, "sharedBuilder") == 0
+			in.Shared = rapid.Bool().Draw(rt, "sharedBuilder")
 		}
 		res := wgEvaluate(in, wgOpts{RealBuilds: sp.builds})
 		cls := wgClasses(res, m)
